@@ -5,10 +5,8 @@
 #ifndef BOOST_MULTI_ADAPTORS_LAPACK_SYEV_HPP
 #define BOOST_MULTI_ADAPTORS_LAPACK_SYEV_HPP
 
-#include <boost/multi/adaptors/blas/filling.hpp"
-#include <boost/multi/adaptors/lapack/core.hpp"
-
-#include <boost/multi/config/NODISCARD.hpp"
+#include <boost/multi/adaptors/blas/filling.hpp>
+#include <boost/multi/adaptors/lapack/core.hpp>
 
 #include <cassert>
 
@@ -22,7 +20,7 @@ using ::core::syev;
 
 template<class Array2D, class Array1D, class Array1DW>
 auto syev(blas::filling uplo, Array2D&& a, Array1D&& w, Array1DW&& work)
-	-> decltype(syev('V', uplo == blas::filling::upper ? 'L' : 'U', size(a), base(a), stride(a), base(w), base(work), size(work), std::declval<int&>()), a({0L, 1L}, {0L, 1L})) {
+	-> decltype(syev('V', uplo == blas::filling::upper ? 'L' : 'U', size(a), a.base(), stride(a), w.base(), work.base(), size(work), std::declval<int&>()), a({0L, 1L}, {0L, 1L})) {
 	assert(size(work) >= std::max(1L, 3 * size(a) - 1L));
 	assert(size(a) == size(w));
 	assert(stride(w) == 1);
@@ -33,10 +31,10 @@ auto syev(blas::filling uplo, Array2D&& a, Array1D&& w, Array1DW&& work)
 
 	int info = -1;
 
-	if(stride(rotated(a)) == 1) {
-		syev('V', uplo == blas::filling::upper ? 'L' : 'U', size(a), base(a), stride(a), base(w), base(work), size(work), info);
+	if(a.rotated().stride() == 1) {
+		syev('V', uplo == blas::filling::upper ? 'L' : 'U', size(a), a.base(), stride(a), w.base(), work.base(), size(work), info);
 	} else if(stride(a) == 1) {
-		syev('V', uplo == blas::filling::upper ? 'U' : 'L', size(a), base(a), stride(rotated(a)), base(w), base(work), size(work), info);
+		syev('V', uplo == blas::filling::upper ? 'U' : 'L', size(a), a.base(), a.rotated().stride(), w.base(), work.base(), size(work), info);
 	} else {
 		assert(0);
 	}  // case not contemplated by lapack
@@ -55,7 +53,7 @@ auto syev(blas::filling uplo, Array2D&& a, Array1D&& w)
 }  // TODO(correaa) obtain automatic size from lapack info routine
 
 template<class Array2D, class Array1D>
-NODISCARD("because input array is const, output gives eigenvectors")
+[[nodiscard]]
 typename Array2D::decay_type syev(blas::filling uplo, Array2D const& a, Array1D&& w) {
 	auto ret = a.decay();
 	auto l   = syev(uplo, ret, std::forward<Array1D>(w));
@@ -65,7 +63,7 @@ typename Array2D::decay_type syev(blas::filling uplo, Array2D const& a, Array1D&
 }
 
 template<class Array2D>
-NODISCARD("because input array is const, output gives eigenvalues")
+[[nodiscard]]
 auto syev(blas::filling uplo, Array2D&& a) {
 	multi::array<typename std::decay_t<Array2D>::element_type, 1, decltype(get_allocator(a))> eigenvalues(size(a), get_allocator(a));
 	syev(uplo, std::forward<Array2D>(a), eigenvalues);
@@ -73,7 +71,7 @@ auto syev(blas::filling uplo, Array2D&& a) {
 }
 
 template<class Array2D>
-NODISCARD("because input array is const, output gives a structured binding of eigenvectors and eigenvactor")
+[[nodiscard]]
 auto syev(blas::filling uplo, Array2D const& a) {
 	struct {
 		typename Array2D::decay_type eigenvectors;
